@@ -37,6 +37,8 @@ do $$
 
 			perform pg_notify('migrations-{{ .Schema }}', 'continue: ' || _batch_size);
 		end loop;
+
+		drop table transactions_ids;
 	end
 $$
 language plpgsql;
